@@ -20,6 +20,7 @@ def jobs_for(rng, tier):
                                  "--flushpct", str(rng.choice([14, 14, 6, 3])),
                                  "--maximages", "1500" if tier == "quick" else "4000"] + ["--sessions", str(rng.choice([1, 3, 3, 4]))]))
     jobs += ce.full_device_jobs(rng, 8 if tier == "quick" else 48)
+    jobs += ce.wide_batch_jobs(rng, 2 if tier == "quick" else 12)
     return jobs
 
 
